@@ -127,11 +127,12 @@ theorem exec_reply_count (hn : c.name = "EXEC")
     exact Proofs.C16Handlers.oneValue_arr_flatten _ hvs
   · rw [h2, List.flatMap_def]
 
-/-- n = 0: MULTI immediately followed by EXEC replies `*0`; nothing runs -/
+/-- n = 0: MULTI immediately followed by EXEC (no watch flag set) replies `*0`; nothing runs.
+    (With a watch flag set the reply is null, as for any other transaction: `C09.watch_sound`.) -/
 theorem empty_exec (hn : c.name = "EXEC") (hst : (sv.conn c.id).state = multiPrepare)
-    (hq : (sv.conn c.id).queue = []) :
+    (hw : (sv.conn c.id).watch.any (·.2) = false) (hq : (sv.conn c.id).queue = []) :
     (step H sv c).2 = [Tok.arr 0] ∧ (step H sv c).1.store = sv.store ∧ stepOuts H sv c = [] := by
-  rw [step_exec H sv c hn, exec_empty sv c.id c.now (by rw [hst]; rfl) (by rw [hst]; decide) hq]
+  rw [step_exec H sv c hn, exec_empty sv c.id c.now (by rw [hst]; rfl) (by rw [hst]; decide) hw hq]
   refine ⟨rfl, resetConn_store _ _, ?_⟩
   have : ¬ execRuns (sv.conn c.id) := fun h => h.2.2.1 hq
   simp [stepOuts, hn, this]
